@@ -184,6 +184,7 @@ func classify(prop string, o *outcome) (nontrivial bool, feature uint64, classes
 	add(r.P.LatencyMs > 0, "link-latency")
 	add(has("fresh-server-joins"), "fresh-server-joins")
 	add(anyPrefix(f, "log-read-error@"), "log-read-errors")
+	add(has("verify-while-a-snapshot-is-in-flight"), "verify-while-a-snapshot-is-in-flight")
 	add(has("acked-entry-applied-in-one-batch-behind-an-inherited-command"), "acked-entry-batched-behind-inherited-command")
 	add(has("apply-ok"), "apply-ok")
 	switch prop {
@@ -217,6 +218,9 @@ func classify(prop string, o *outcome) (nontrivial bool, feature uint64, classes
 		if r.P.Profile == "leaselong" {
 			nontrivial = o.virtual >= 100*int64(r.P.HBms[0]/r.P.LeaseDiv)
 			add(true, "long-fault-free-run")
+		} else if r.P.Profile == "leasejoin" {
+			nontrivial = has("fresh-server-joins") && has("membership-ok")
+			add(true, "fault-free-run-with-new-voters")
 		} else {
 			nontrivial = has("cutleader-keeps-a-peer") && has("lease-stepdown")
 			add(has("cutleader-keeps-nonvoters"), "leader-side-has-nonvoters")
@@ -332,6 +336,7 @@ func TestC12(t *testing.T)     { runProfile(t, "C12", "converge") }
 func TestC12Join(t *testing.T) { runProfile(t, "C12", "membership") }
 func TestC13(t *testing.T)     { runProfile(t, "C13", "lease") }
 func TestC13Long(t *testing.T) { runProfile(t, "C13", "leaselong") }
+func TestC13Join(t *testing.T) { runProfile(t, "C13", "leasejoin") }
 func TestC14(t *testing.T)     { runProfile(t, "C14", "prevote") }
 func TestC17(t *testing.T)     { runProfile(t, "C17", "futures") }
 func TestC18(t *testing.T)     { runProfile(t, "C18", "notify") }
